@@ -20,13 +20,22 @@ for pid in sorted(props):
     if getattr(mod, "CLAIM", None) and pid in ENABLED:
         CLAIMED[pid] = mod.CLAIM
 NOT_APPLICABLE = {}
+# further model/implementation pairs serving one property: tools/props/<id>_<part>.py
+PARTS = {}
+for f in sorted(os.listdir(os.path.join(VERIF, "tools", "props"))):
+    import re as _re
+    m = _re.match(r"(c\d+)_(\w+)\.py$", f)
+    if m and m.group(1).upper() in props:
+        PARTS.setdefault(m.group(1).upper(), []).append(m.group(2))
 
 checks = []
 for pid, c in sorted(CLAIMED.items()):
     checks.append({
         "property_id": pid,
-        "quick_cmd": "python3 tools/check.py %s --tier quick" % pid,
-        "thorough_cmd": "python3 tools/check.py %s --tier thorough" % pid,
+        "quick_cmd": " && ".join(["python3 tools/check.py %s --tier quick" % pid] +
+                                 ["python3 tools/check.py %s --part %s --tier quick" % (pid, pt) for pt in PARTS.get(pid, [])]),
+        "thorough_cmd": " && ".join(["python3 tools/check.py %s --tier thorough" % pid] +
+                                    ["python3 tools/check.py %s --part %s --tier thorough" % (pid, pt) for pt in PARTS.get(pid, [])]),
         "evidence_file": "evidence/%s.json" % pid,
         "replay_cmd_template": "python3 tools/check.py %s --replay {path}" % pid,
         "engine": "coq+diff",
